@@ -8,7 +8,10 @@
     the net status change between the dumps) and the log-level clauses of
     Model/SessionSpec.v (the calls of a Commit are the steps still valid
     according to the command history; a successful un-eviction that leaves the
-    pod without a valid eviction is itself a rollback of that eviction). *)
+    pod without a valid eviction is itself a rollback of that eviction).
+    An Evict of a pod that the dump taken before it shows Releasing (evicted
+    earlier, or terminating) is no step of the history: a Commit must not emit
+    anything for it, a Rollback / Discard has nothing to undo for it. *)
 From KaiV Require Export Run.Cycle Model.Session Model.SessionSpec.
 Open Scope Z_scope.
 
@@ -204,11 +207,14 @@ Definition commit_ok (fails : nat -> bool) (ncalls : nat) (start pre : odump) (c
 (** * The property on the command history (Model/SessionSpec.v) and the real outputs *)
 Definition jobof_k (k : pcase) (p : positive) : option positive :=
   match static_task k p with Some t => Some (t_job t) | None => None end.
-(** where the command's pod sits according to the real dump taken before the command *)
-Definition loc_obs (d : odump) (c : cmd) : option positive * list positive :=
+(** where the command's pod sits, and whether it is Releasing, according to the real dump taken before the command *)
+Definition loc_obs (d : odump) (c : cmd) : place :=
   match cmd_pod c with
-  | Some p => match pstatus d p with Some v => (v_node v, v_groups v) | None => (None, []) end
-  | None => (None, [])
+  | Some p => match pstatus d p with
+              | Some v => mkPlace (v_node v) (v_groups v) (status_eqb (v_status v) Releasing)
+              | None => nowhere
+              end
+  | None => nowhere
   end.
 
 Definition xkey := (ckind * positive * option positive)%type.
@@ -336,10 +342,38 @@ Fixpoint mon (k : pcase) (ncalls : nat) (start : odump) (cps : list (nat * odump
 Definition prog_monitor (k : pcase) : bool * bool :=
   if k_wf k then mon k 0 (k_dump0 k) [] (exposed_nodes k (k_dump0 k)) [[]] [] (k_dump0 k) (k_steps k) else (true, false).
 
-(** * Real cycles: at most one call of each kind per pod *)
+(** * Real cycles: at most one call of each kind per pod
+
+    C13's "evicted at most once" is a statement about ONE Commit.  The calls of a cycle come
+    without statement boundaries, so the clause evaluated here is the part of it that can be read
+    off the call sequence: a pod is evicted at most once between two placements of it - after an
+    Evict of p, another Evict of p is accepted only when a TaskPipelined or a Bind of p came in
+    between (and a pod is nominated at most once between two evictions of it, bound at most once).  In every real run that means a later statement: a statement that evicted p and
+    re-placed it elsewhere was committed, and a later statement of the same cycle chose the
+    re-placed pod (status Pipelined, not Releasing) as a victim again; each of the two Commits
+    evicts p once (Run/Cycle.v reports the event as observation flag 110).  Two Evicts of p with
+    no placement of p in between - the shape the repair 83a0ca3 + bce7109 removed - fail the clause.  The
+    strict per-Commit clause is evaluated on the program stream, where the statement boundaries
+    are known ([commit_ok], [log_commit_ok]), and proved (Properties/C13.v). *)
+Fixpoint evict_once_go (evd : list positive) (cs : list call) : bool :=
+  match cs with
+  | [] => true
+  | CEvict p _ _ :: r => negb (existsb (Pos.eqb p) evd) && evict_once_go (p :: evd) r
+  | CPipe p _ _ :: r | CBind p _ _ :: r => evict_once_go (filter (fun q => negb (Pos.eqb q p)) evd) r
+  end.
+(** nominations, by the same reasoning: after a TaskPipelined of p another one is accepted only when an
+    Evict of p came in between (a later statement evicted the nominated pod and re-placed it; each
+    of the two Commits nominates it once) *)
+Fixpoint pipe_once_go (piped : list positive) (cs : list call) : bool :=
+  match cs with
+  | [] => true
+  | CPipe p _ _ :: r => negb (existsb (Pos.eqb p) piped) && pipe_once_go (p :: piped) r
+  | CEvict p _ _ :: r => pipe_once_go (filter (fun q => negb (Pos.eqb q p)) piped) r
+  | CBind _ _ _ :: r => pipe_once_go piped r
+  end.
 Definition cycle_once (k : ccase) : bool :=
-  nodup_posb (evicted k) && nodup_posb (map (fun b => fst (fst b)) (bound_calls k))
-  && nodup_posb (map (fun b => fst (fst b)) (piped_calls k)).
+  evict_once_go [] (c_calls k) && nodup_posb (map (fun b => fst (fst b)) (bound_calls k))
+  && pipe_once_go [] (c_calls k).
 
 Definition model_agrees (c : case) : bool :=
   match c with KProg k => prog_agrees k | KCycle k => cycle_agrees k end.
